@@ -121,6 +121,13 @@ def monitor_inproc(c):
         t0, t1, s = p["t0"], p["t1"], p["st"]
         if t0 < c["t_run0"] or t1 > c["t_run1"]:
             continue
+        if c["t_close0"] and t1 >= c["t_close0"] and t0 <= c["t_close1"] + 2000 and s["req"] != c["req"]:
+            # a reader racing with Close's compaction: it listed the original, which was unlinked under it before the twin was
+            # listed - since 3aa388e the unreadable file is skipped and the default status is answered (before: an error).
+            # The property is silent about the instant between "in progress" and "process ended"; counted, not judged
+            c.setdefault("_obs", {}).setdefault("read_error_during_compaction", 0)
+            c["_obs"]["read_error_during_compaction"] += 1
+            continue
         if stale and fw is not None and t1 >= fw["t2"]:
             continue      # answered from a history that ends with a stale snapshot: judged once, below
         in_progress = first0 is not None and last1 is not None and t0 > first0 and t1 < last1
@@ -500,7 +507,86 @@ class Crash:
             case["rc"] = p.returncode
             case["killed"] = p.returncode in (137, -9)
             case["boundary"] = boundary(log, sysc) if case["killed"] else None
-            case["after_final"] = case["boundary"] in AFTER_FINAL
+        case["disk_state"] = self.disk_state(h) if case.get("killed") else None
+        if how == "sys":
+            # the label comes from the strace log; it counts only together with what is on disk
+            case["after_final"] = case["boundary"] in AFTER_FINAL and case["disk_state"] in ("A", "B", "M", "C", "D")
+        return self.after_kill(case, h, scen)
+
+    def disk_state(self, h):
+        """the compaction states a kill can leave: A original only, B original + empty twin, M original + twin whose line is
+        not complete (no newline yet), C original + written twin, D twin only, - nothing"""
+        orig, twin, tpath = None, None, None
+        try:
+            for root, _, files in os.walk(os.path.join(h, "data")):
+                for f in files:
+                    if f.endswith("_c.dat"):
+                        tpath = os.path.join(root, f)
+                        twin = os.path.getsize(tpath)
+                    elif f.endswith(".dat"):
+                        orig = os.path.getsize(os.path.join(root, f))
+            if twin and orig is not None:
+                with open(tpath, "rb") as fh:
+                    fh.seek(-1, 2)
+                    if fh.read(1) != b"\n":
+                        return "M"
+        except OSError:
+            return "?"
+        if orig is None and twin is None:
+            return "-"
+        if twin is None:
+            return "A"
+        if orig is None:
+            return "D"
+        return "B" if twin == 0 else "C"
+
+    def kill_in_state(self, scen, target):
+        """SIGKILL while the history directory is in compaction state `target` (B, C or D): the run is slowed down by strace
+        (every write / unlinkat / fsync of the process is delayed on entry), an observer polls the directory and kills the
+        run's process when it sees the state.  What was really left on disk is recorded (`disk_state`)."""
+        h = self.home(scen)
+        env = self.env(h)
+        case = {"scenario": scen, "how": "state", "arg": target, "home": os.path.basename(h), "after_final": True}
+        log = os.path.join(h, "strace.log")
+        delay = "delay_enter=15000"
+        p = subprocess.Popen(["strace", "-f", "-b", "execve", "-o", log, "-e", "trace=write,unlinkat,fsync",
+                              "-e", "inject=write:" + delay, "-e", "inject=unlinkat:" + delay, "-e", "inject=fsync:" + delay,
+                              self.bd, "start", "-q", self.dag(h, scen)], env=env, stdout=subprocess.DEVNULL, stderr=subprocess.DEVNULL,
+                             start_new_session=True)
+        tracee = None
+        t_end = time.time() + 60
+        killed = False
+        while time.time() < t_end and p.poll() is None:
+            if tracee is None:
+                try:
+                    kids = open("/proc/%d/task/%d/children" % (p.pid, p.pid)).read().split()
+                    if kids:
+                        tracee = int(kids[0])
+                except OSError:
+                    pass
+            if tracee is not None and self.disk_state(h) == target:
+                # strace and the run's process form one process group (the step commands have their own and have ended)
+                for f in (lambda: os.kill(tracee, signal.SIGKILL), lambda: os.killpg(p.pid, signal.SIGKILL)):
+                    try:
+                        f()
+                        killed = True
+                    except OSError:
+                        pass
+                break
+            time.sleep(0.0004)
+        try:
+            p.wait(timeout=30)
+        except subprocess.TimeoutExpired:
+            p.kill()
+            p.wait()
+        case["killed"] = killed
+        case["rc"] = p.returncode
+        case["disk_state"] = self.disk_state(h)
+        case["boundary"] = "state:" + case["disk_state"]
+        return self.after_kill(case, h, scen)
+
+    def after_kill(self, case, h, scen):
+        env = self.env(h)
         time.sleep(0.09)      # orphaned step commands (30 ms sleeps) finish
         case["markers"] = self.markers(h)
         post = self.latest(h, scen)
@@ -568,9 +654,10 @@ def _walk(log):
         killed = ln.rstrip().endswith("= ?")
         kind = None
         if sysc == "openat":
-            if "_c.dat" in args:
+            hm = re.search(r"\.\d{8}\.\d\d:\d\d:\d\d\.\d{3}\.[^/\"]*?(_c)?\.dat\"", args)
+            if hm and hm.group(1):
                 kind = "hist_c"
-            elif ".dat" in args:
+            elif hm:
                 kind = "hist"
             elif "start_" in args and ".log" in args:
                 kind = "agentlog"
@@ -655,9 +742,18 @@ def monitor_crash(case):
         return out
     marks = set(case["markers"])
     L = post.get("latest")
-    newest_empty = bool(post.get("files")) and any(f.endswith(":0") and not f.split(":")[-2].endswith("_c.dat") for f in post["files"][-1:])
+    def empty_class():
+        """an empty ORIGINAL (kill between history Open and the first line) is the class of finding F7a; an empty compaction
+        twin next to a complete original is something else"""
+        files = post.get("files") or []
+        if any(f.endswith(":0") and not f.rsplit(":", 1)[0].endswith("_c.dat") for f in files):
+            return {"class": "empty-newest-history-file"}
+        if any(f.endswith(":0") and f.rsplit(":", 1)[0].endswith("_c.dat") for f in files):
+            return {"class": "empty-compaction-twin"}
+        return None
+
     if post.get("latest_err"):
-        cls = {"class": "empty-newest-history-file"} if any(f.endswith(":0") for f in post.get("files", [])) else {"class": "dead-status-error"}
+        cls = empty_class() or {"class": "dead-status-error"}
         out.append(("after the kill the latest status cannot be read: %s (files %s)" % (post["latest_err"], post.get("files")), cls))
     elif L is None:
         out.append(("after the kill no status is reported", {"class": "dead-status-missing"}))
@@ -674,11 +770,12 @@ def monitor_crash(case):
                 cls = {"class": "kill-between-steps"} if pending else {"class": "dead-finished-other"}
                 out.append(("killed run reported as finished although step(s) %s never completed (reported steps %s, markers %s)"
                             % ([n["name"] for n in L["nodes"] if n["st"] not in DONE_OK] or incomplete, t, sorted(marks)), cls))
-    if case.get("after_final") and L is not None and not post.get("latest_err"):
+    ran_all = all((st + ".end") in marks for st in scen["steps"][:min([scen["steps"].index(f) for f in scen["fails"]], default=len(scen["steps"]))])
+    if case.get("after_final") and ran_all and L is not None and not post.get("latest_err"):
         want_st, want_tbl = FINAL[case["scenario"]]
         if L["st"] != want_st or table(L) != want_tbl:
-            out.append(("killed inside the shutdown (%s), after the final status had been written: reported %r %s, not the final state %s"
-                        % (case["boundary"], L["text"], table(L), want_tbl), {"class": "shutdown-kill-not-final"}))
+            out.append(("killed inside the shutdown (%s, history directory state %s), after the final status had been written: reported %r %s, not the final state %s"
+                        % (case["boundary"], case.get("disk_state"), L["text"], table(L), want_tbl), {"class": "shutdown-kill-not-final"}))
     cur = post.get("current")
     if post.get("current_err") or cur is None or cur["st"] != NONE:
         out.append(("after the kill the socket probe does not say `not running`: %s %s" % (cur and cur["text"], post.get("current_err")), {"class": "dead-probe"}))
@@ -699,8 +796,8 @@ def monitor_crash(case):
     tk = case.get("tick")
     if tk is not None and tk["outcome"] != "started":
         cls = {"class": "daemon-" + tk["outcome"]}
-        if tk["outcome"] == "refused-error" and any(f.endswith(":0") for f in post.get("files", [])):
-            cls = {"class": "empty-newest-history-file"}
+        if tk["outcome"] == "refused-error" and empty_class():
+            cls = empty_class()
         out.append(("after the kill the scheduler daemon does not start the DAG at its next minute: %s %s" % (tk["outcome"], tk["messages"][-2:]), cls))
     return out
 
@@ -751,19 +848,21 @@ def run_crash(ctx, bd, helper, tier, rng, workers=8):
     with ThreadPoolExecutor(max_workers=workers) as ex:
         for c in ex.map(lambda j: cr.kill_case(*j), jobs):
             cases.append(c)
-        # second chance for shutdown boundaries that were not hit
-        for attempt in (1, 2):
-            hit = {(c["scenario"], c.get("boundary")) for c in cases if c.get("killed")}
-            retry = []
-            for (scen, label, sysc, k) in wanted:
-                if (scen, label) not in hit:
-                    retry += [(scen, "sys", (sysc, kk)) for kk in (k - attempt, k + attempt, k) if kk >= 1]
-            if not retry:
-                break
-            for c in ex.map(lambda j: cr.kill_case(*j), retry):
-                cases.append(c)
+        # kills INSIDE Close's compaction, by the state of the history directory (B: twin created and still empty, C: twin written,
+        # original not yet unlinked, D: original unlinked)
+        reps = 1 if tier == "quick" else 4
+        sj = [(scen, st) for scen in SCENARIOS if info[scen]["reference_ok"] and (tier != "quick" or scen in ("chain", "big", "retry"))
+              for st in (("B", "M", "C", "D") if scen == "big" else ("B", "C", "D")) for _ in range(reps)]
+        for c in ex.map(lambda j: cr.kill_in_state(*j), sj):
+            cases.append(c)
     hit = {(c["scenario"], c.get("boundary")) for c in cases if c.get("killed")}
-    info["shutdown_boundaries"] = {"wanted": sorted({"%s/%s" % (a, b) for a, b, _, _ in wanted}),
-                                   "hit": sorted({"%s/%s" % (a, b) for a, b, _, _ in wanted if (a, b) in hit})}
+    states = {}
+    for c in cases:
+        if c.get("killed") and c.get("disk_state") in ("B", "M", "C", "D"):
+            k = "%s/%s" % (c["scenario"], c["disk_state"])
+            states[k] = states.get(k, 0) + 1
+    info["shutdown_boundaries"] = {"aimed_at": sorted({"%s/%s" % (a, b) for a, b, _, _ in wanted}),
+                                   "hit": sorted({"%s/%s" % (a, b) for a, b, _, _ in wanted if (a, b) in hit}),
+                                   "compaction_states_left_by_a_kill (B twin empty, M twin mid-write, C twin written + original, D twin only)": states}
     cr.cleanup()
     return cases, info
